@@ -235,3 +235,42 @@ func (s *valueSet) finish() {
 		}
 	}
 }
+
+// prepareSet evaluates the relation behind `IN (subquery | cte | table)` during analysis and checks
+// the column count against the left-hand side; constant lists are evaluated for their errors only.
+func (sc *selectCtx) prepareSet(rhs Expr, lt *Type) error {
+	rhs = stripAlias(rhs)
+	ev := sc.newConstEnv()
+	leftArity := 1
+	if lt != nil && lt.Name == "Tuple" {
+		leftArity = len(lt.Args)
+	}
+	switch r := rhs.(type) {
+	case *Subquery, *Ident:
+		if id, ok := r.(*Ident); ok && len(id.Parts) == 1 {
+			if ax, isAlias := sc.aliases[id.Parts[0]]; isAlias && sc.scope.lookup(id.Parts[0]) == nil && sc.x.db.lookupTable("", id.Parts[0]) == nil {
+				return sc.prepareSet(ax, lt)
+			}
+		}
+		set, err := ev.buildSet(nil, rhs, leftArity, Null{})
+		if err != nil {
+			return err
+		}
+		if lt != nil && set.arity != leftArity {
+			return raise("NUMBER_OF_COLUMNS_DOESNT_MATCH", "number of columns in section IN doesn't match: %d at left, %d at right", leftArity, set.arity)
+		}
+	default:
+		var elems []Expr
+		if fn, ok := rhs.(*Func); ok && (fn.Name == "tuple" || fn.Name == "array") {
+			elems = fn.Args
+		} else {
+			elems = []Expr{rhs}
+		}
+		for _, e := range elems {
+			if _, err := ev.eval(e); err != nil {
+				return err
+			}
+		}
+	}
+	return nil
+}
